@@ -16,10 +16,13 @@
      MIrr        a Python float the model does not track (exp of a float, pi, E, non-integer powers)
      MVar        a bare Variable symbol (certainly not a number)
      MSym        any other SymPy expression (SymPy may have simplified it to a number: 0*a, a/a, a**0)
-   RESTRICTION (stated to the harness as the result [UUnsupp]): when the exponent of a Pow is MIrr or
-   MSym, a complex number would arise, or a SymPy infinity / nan occurs, the model declines.  Exact
-   rationals stand for binary floats (generators keep to dyadic exponents and non-zero exponents:
-   pint keeps {mV: 0} distinct from the empty container). *)
+   Since the F6 repair the exponent of a Pow is read from the exponent expression ([expo_infer]), not from
+   the magnitude; magnitudes still decide exp / floor / ceiling / power values (and the Python exceptions
+   they raise).
+   RESTRICTION (stated to the harness as the result [UUnsupp]): when the value of an exponent is not a sum /
+   product of numbers, quantities and initial values, a complex number would arise, or a SymPy infinity /
+   nan occurs, the model declines.  Exact rationals stand for binary floats (generators keep to dyadic
+   exponents and non-zero exponents: pint keeps {mV: 0} distinct from the empty container). *)
 From Coq Require Import List ZArith QArith Qabs Bool.
 From Verif Require Import Sexp UnitAlg Expr.
 Import ListNotations.
